@@ -10,6 +10,32 @@ use crate::{
     Error, ImageWithRegion, IndexedFrame, Reference, Region, Result, image::RenderedImage,
 };
 
+thread_local! {
+    /// Number of frame renders currently running on the stack of this thread.
+    static RENDER_DEPTH: std::cell::Cell<usize> = const { std::cell::Cell::new(0) };
+}
+
+struct RenderDepthGuard;
+
+impl RenderDepthGuard {
+    fn enter() -> Self {
+        RENDER_DEPTH.with(|depth| depth.set(depth.get() + 1));
+        Self
+    }
+
+    /// Returns whether current thread is already in the middle of rendering a frame, or running
+    /// a thread pool task on behalf of one.
+    fn is_nested() -> bool {
+        RENDER_DEPTH.with(|depth| depth.get() > 0) || jxl_threadpool::task_depth() > 1
+    }
+}
+
+impl Drop for RenderDepthGuard {
+    fn drop(&mut self) {
+        RENDER_DEPTH.with(|depth| depth.set(depth.get() - 1));
+    }
+}
+
 pub type RenderOp<S> =
     Arc<dyn Fn(FrameRender<S>, Region) -> FrameRender<S> + Send + Sync + 'static>;
 
@@ -137,7 +163,10 @@ impl<S: Sample> FrameRenderHandle<S> {
 
             let _guard = tracing::trace_span!("Run with image", index = self.frame.idx).entered();
 
-            let render_result = (self.render_op)(state, self.image_region);
+            let render_result = {
+                let _depth = RenderDepthGuard::enter();
+                (self.render_op)(state, self.image_region)
+            };
             match render_result {
                 FrameRender::InProgress(_) => {
                     drop(self.done_render(render_result));
@@ -157,9 +186,18 @@ impl<S: Sample> FrameRenderHandle<S> {
     }
 
     pub fn run(&self, image_region: Region) {
+        // This is a speculative render, possibly picked up by a pool thread while it waits inside
+        // the render (or a pool task) of another frame. It may then wait for that very frame, which
+        // cannot make progress until this call returns; leave the frame to whoever requests it
+        // instead.
+        if RenderDepthGuard::is_nested() {
+            return;
+        }
+
         if let Some(state) = self.start_render_silent() {
             let _guard = tracing::trace_span!("Run", index = self.frame.idx).entered();
 
+            let _depth = RenderDepthGuard::enter();
             let render_result = (self.render_op)(state, image_region);
             drop(self.done_render(render_result));
         }
